@@ -19,7 +19,7 @@ func verifNewDest(spool bool, connBuf, ioBuf int) *Destination {
 		period = 20 * time.Millisecond
 		spoolDir = verifTempDir()
 	}
-	d, err := New("route", m, verifEndpointAddr(), spoolDir, spool, false, period, period, connBuf, ioBuf, 4, 1000, 10, time.Hour, time.Millisecond, time.Millisecond)
+	d, err := New("route", m, verifEndpointAddr(), spoolDir, spool, false, period, period, connBuf, ioBuf, 4, 12, 10, time.Hour, time.Millisecond, time.Millisecond)
 	if err != nil {
 		panic(err)
 	}
@@ -79,6 +79,13 @@ func VerifC06Steady() {
 	if behaviour >= 2 {
 		verifEndpointStall(0, true)
 	}
+	if behaviour == 1 && verifBool("idle-keepsafe-ticks") {
+		// the connection sits idle long enough for keepSafe's expiry ticker to fire (twice)
+		for i := 0; i < 2; i++ {
+			verifTick(verifTickerIdx("keepsafe.go"))
+			verifSettle()
+		}
+	}
 	n := 2 + verifChoice("nlines", 3)
 	lines, want := verifLines(n)
 	drop0 := d.numDropNoConnNoSpool.Count()
@@ -132,6 +139,18 @@ func VerifC06Steady() {
 		verifAssert(int(d.numDropNoConnNoSpool.Count()-d0) == 2, "after-close-every-line-counted-conn-down")
 	case 2:
 		verifAssert(dropped == 0, "stalled-no-conn-down-drops")
+		// the endpoint starts reading again (it was healthy but slow): everything that was not counted as a
+		// slow-connection drop arrives
+		verifEndpointStall(0, false)
+		verifSettle()
+		verifFlushConns()
+		nrecv := 0
+		for _, c := range []byte(verifAllLogs()) {
+			if c == '\n' {
+				nrecv++
+			}
+		}
+		verifAssert(nrecv+int(d.numDropSlowConn.Count()-slow0) == n, "slow-endpoint-received-or-counted")
 		// (only the no-stall claim applies to a black-holing endpoint: reaching this point means every hand-off returned)
 		verifAssert(slow <= n, "stalled-slow-drops-bounded")
 	}
